@@ -100,9 +100,28 @@ fn main() {
                 writeln!(out, "{}", lp::std_event(c)).unwrap();
             }
         }
+        // solve --cases F [--entries a,b] : solver entry points on linear models (C04, C05)
+        "solve" => {
+            let cases = read_cases(&arg(&args, "--cases").expect("--cases"));
+            let ent = arg(&args, "--entries");
+            let entries: Vec<&str> = match &ent {
+                Some(s) => s.split(',').collect(),
+                None => lp::ENTRIES.to_vec(),
+            };
+            for c in &cases {
+                let mut evs = vec![];
+                lp::solve_events(c, &entries, &mut evs);
+                for ev in evs {
+                    writeln!(out, "{}", ev).unwrap();
+                }
+            }
+        }
         _ => {
             eprintln!("usage: rv <lin> ...");
             std::process::exit(2);
         }
     }
+    out.flush().unwrap();
+    drop(out);
+    std::process::exit(0);
 }
